@@ -21,10 +21,10 @@ for f in sorted(glob.glob(os.path.join(V, 'seeded', '*', 'meta.json'))):
     ok = (c.get('demo_unchanged_rc') == 0 and c.get('demo_changed_rc') == 1 and c.get('stable_tests_pass'))
     rows.append('| %s | %s | %s | %s | %s | %s |' % (tag, files, change, needs, 'yes' if ok else 'NO', det))
 hdr = ('### 11.6 Seeded changes and what caught them\n\n'
-       'Three waves of mutation agents (given only a property text and a scratch worktree) produced the changes below; each was '
+       'Four waves of mutation agents (given only a property text and a scratch worktree) produced the changes below; each was '
        'confirmed by `harness/seedtest.py` (demo exits 0 on the unchanged tree and 1 with the patch; the stable tests that touch '
        'the modules still pass, flaky ones re-run; then the patch is applied to /repo, `./check` is run and the patch is undone). '
-       'Tags `Cxx_a/b` = wave 1, `Cxx_w2a/b` = wave 2, `Cxx_w3a/b` = wave 3. "Confirmed" = demo 0/1 and tests pass. The last column is the check that '
+       'Tags `Cxx_a/b` = wave 1, `Cxx_w2a/b` = wave 2, `Cxx_w3a/b` = wave 3, `Cxx_w4a` = wave 4 (six properties, one change each). "Confirmed" = demo 0/1 and tests pass. The last column is the check that '
        'reported the violation, whether it came with a concrete failing input, and the first failing clause.\n\n'
        '| Tag | File | Change | Needs to manifest | Confirmed | Caught by |\n|---|---|---|---|---|---|\n')
 txt = hdr + '\n'.join(rows) + '\n'
